@@ -35,6 +35,11 @@ type acc struct {
 	anyErr bool // any documented error marker is accepted as well
 	free   bool // not constrained by the statement
 	skip   bool // the model predicts that the program does not terminate: not executed
+	// pred, when set, replaces vals: the allowed results are too many to list
+	// (a string in which occurrences of the delimiter overlap at many places)
+	// and are given by a test instead. Only the outermost helper can be judged
+	// this way; a helper consuming such a value is unconstrained.
+	pred func(got string) bool
 }
 
 const maxSet = 48
@@ -56,6 +61,9 @@ func (a acc) accepts(got string) bool {
 	if a.free {
 		return true
 	}
+	if a.pred != nil {
+		return a.pred(got) || (a.anyErr && isErrorMarker(got))
+	}
 	for _, v := range a.vals {
 		if v == got {
 			return true
@@ -67,6 +75,18 @@ func (a acc) accepts(got string) bool {
 func (a *acc) add(b acc) {
 	if b.skip {
 		a.skip = true
+	}
+	if b.pred != nil {
+		if len(a.vals) == 0 && a.pred == nil && !a.free {
+			a.pred = b.pred
+		} else {
+			a.free = true
+		}
+		return
+	}
+	if a.pred != nil {
+		a.free = true
+		return
 	}
 	if b.free {
 		a.free = true
@@ -107,7 +127,7 @@ func lift(args []acc, f func(v []string) acc) acc {
 			a.add(acc{vals: errorMarkers})
 			args[i] = a
 		}
-		if a.free || len(a.vals) == 0 {
+		if a.free || a.pred != nil || len(a.vals) == 0 {
 			out.free = true
 		}
 	}
@@ -160,25 +180,55 @@ func boolStr(b bool) string {
 
 // splitVariants: every list L with join(L, d) == s whose elements do not
 // contain d ("@split and @join are inverse"). Exactly one unless occurrences
-// of d overlap in s.
-func splitVariants(s, d string) [][]string {
-	var res [][]string
-	var rec func(start int, pre []string)
-	rec = func(start int, pre []string) {
-		rest := s[start:]
-		if !strings.Contains(rest, d) {
-			res = append(res, append(append([]string{}, pre...), rest))
+// of d overlap in s. Linear in len(s) when there is one; complete=false when
+// there are more than maxSet (the enumeration stops; use splitOK instead).
+func splitVariants(s, d string) (res [][]string, complete bool) {
+	var cur []string
+	complete = true
+	var rec func(start int)
+	rec = func(start int) {
+		if !complete {
 			return
 		}
-		for i := start; i+len(d) <= len(s); i++ {
-			if s[i:i+len(d)] == d && !strings.Contains(s[start:i], d) {
-				rec(i+len(d), append(append([]string{}, pre...), s[start:i]))
+		i := strings.Index(s[start:], d)
+		if i < 0 {
+			if len(res) >= maxSet {
+				complete = false
+				return
+			}
+			res = append(res, append(append([]string{}, cur...), s[start:]))
+			return
+		}
+		i += start
+		// the element s[start:j] must not contain d, so the delimiter that ends
+		// it starts at the first occurrence or overlaps it
+		for j := i; j < i+len(d) && j+len(d) <= len(s); j++ {
+			if s[j:j+len(d)] == d {
+				cur = append(cur, s[start:j])
+				rec(j + len(d))
+				cur = cur[:len(cur)-1]
 			}
 		}
 	}
-	rec(0, nil)
-	return res
+	rec(0)
+	return res, complete
 }
+
+// splitOK: got is a list whose elements do not contain d and whose join by d
+// is s (the definition splitVariants enumerates).
+func splitOK(got, s, d string) bool {
+	l := strings.Split(got, nul)
+	for _, x := range l {
+		if strings.Contains(x, d) {
+			return false
+		}
+	}
+	return strings.Join(l, d) == s
+}
+
+// forCap: the model does not follow a @for beyond this many iterations (the
+// program is then not executed). The SIZE family raises it to its n.
+var forCap = 24
 
 func ref(n *Node, e env) acc {
 	switch n.K {
@@ -352,8 +402,13 @@ func refCall(n *Node, e env) acc {
 			if v[0] == "" {
 				return one("")
 			}
+			vs, complete := splitVariants(v[0], d)
+			if !complete {
+				s := v[0]
+				return acc{pred: func(got string) bool { return splitOK(got, s, d) }}
+			}
 			var out acc
-			for _, l := range splitVariants(v[0], d) {
+			for _, l := range vs {
 				out.add(one(encode(l)))
 			}
 			return out
@@ -364,6 +419,24 @@ func refCall(n *Node, e env) acc {
 			ds = []string{n.A[1].S}
 			if n.A[1].S == "" { // "If delim is empty, it will be " ""
 				ds = []string{"", " "}
+			}
+			// "@split and @join are inverse for any non-empty delimiter": joining
+			// what @split returned by the same delimiter gives the string back,
+			// whichever of the allowed decompositions @split chose
+			// (a string that already holds list separators is not "a string" for
+			// this sentence: @join would rewrite those too; the general rule below
+			// handles it)
+			if in := n.A[0]; n.A[1].S != "" && in.K == "call" && in.S == "@split" && len(in.A) == 2 && in.A[1].K == "lit" && in.A[1].S == n.A[1].S {
+				s := ref(in.A[0], e)
+				plain := !s.free && s.pred == nil && !s.skip && len(s.vals) > 0
+				for _, v := range s.vals {
+					if strings.Contains(v, nul) {
+						plain = false
+					}
+				}
+				if plain {
+					return s
+				}
 			}
 		}
 		return lift(refAll(n.A[:1], e), func(v []string) acc {
@@ -502,7 +575,7 @@ func refCall(n *Node, e env) acc {
 			val := v[0]
 			var out []string
 			for idx := 0; ; idx++ {
-				if idx > 24 {
+				if idx > forCap {
 					return acc{skip: true}
 				}
 				se := sub(e, val, strconv.Itoa(idx))
